@@ -161,6 +161,10 @@ fn c07_o3_done_iff_nothing_pending() {
 
 impl IterativeQuery {
     /// mark `tid` as one of this lookup's outstanding requests (what `visit` does after sending)
+    /// composite harnesses: an earlier response already recorded in the lookup
+    pub(crate) fn kani_push_response(&mut self, r: Response) {
+        self.responses.push(r);
+    }
     pub(crate) fn kani_track(&mut self, tid: u32) {
         self.inflight_requests.push(tid);
     }
